@@ -2960,6 +2960,13 @@ HPgetdiskblock(filerec_t *file_rec, int32 block_size, int moveto)
     if (file_rec == NULL || block_size < 0)
         HGOTO_ERROR(DFE_ARGS, FAIL);
 
+    /* Offsets and lengths are signed 32-bit numbers in the file: a block
+       which would end beyond what they can express is not handed out (the
+       end-of-file offset would wrap and later blocks would be placed over
+       existing data) */
+    if (block_size > (int32)0x7fffffff - file_rec->f_end_off)
+        HGOTO_ERROR(DFE_BADLEN, FAIL);
+
 #ifdef DISKBLOCK_DEBUG
     block_size += (DISKBLOCK_HSIZE + DISKBLOCK_TSIZE);
     /* get the offset of the allocated block */
